@@ -26,6 +26,13 @@ def b2s (b : Bool) : String := if b then "1" else "0"
 def step (st : St) (toks : List String) : St × Option String :=
   match toks with
   | ["cfg", h, a] => ({ st with handle := parseConds h, abort := parseConds a }, none)
+  | ["deep", _, eq] =>
+    -- values of any result type compare by deep equality: in the model a value is its contents (target 1; an equal copy is 1,
+    -- anything else 2)
+    let o : Outcome := ⟨if eq == "eq" then 1 else 2, none⟩
+    let f := isFailure [.result 1] o
+    let ab := isAbortable [.result 1] o
+    (st, some s!"rp={b2s f} ab={b2s ab} cb={b2s f} fb={b2s f}")
   | [op, v, e] =>
     if op != "o" && op != "oh" then (st, some "bad-op") else
     match parseErr e with
